@@ -182,6 +182,8 @@ def plan(tier, seed):
     # tabulating operators of these specs, so the large runs are made without it; on BasisHier and BasisMulti TLC exhausts
     # its heap under -coverage even for the smallest constants: their two actions are counted from the states TLC emits,
     # a Build state with a cell of level >= 1 / with >= 2 patches proves that Refine / AddPatch and Build were taken)
+    # directed family: periodic splines of degree 4 (5, 6 in thorough) with reduced continuity / repeated knots around the seam
+    jobs['struct-seam'] = ('struct', 'MCBasis', dict(cfg_text=_cfg_basis('Dims_seam4' if tier == 'quick' else 'Dims_seam5', 'Dims_seam4', 1, 'Rem_2', 0, 0, 0, kinds='Kinds_spline')), True)
     jobs['struct-cov'] = ('struct', 'MCBasis', dict(cfg_text=_cfg_basis('Dims_cov', 'Dims_cov', 2, 'Rem_2', 1, 4, 3), coverage=True), True)
     jobs['nodal-cov'] = ('nodal', 'MCNodal', dict(cfg_text=_cfg_generic(['MaxV = 3', 'MaxSimp = 2', 'DimSet <- Dims_1', 'BuildSet <- Builds_cov', 'AnyOrder = FALSE'], NODAL_INVS), coverage=True), True)
     for m in muts:
@@ -343,6 +345,8 @@ def choose(emitted, rng, limits):
         d = h[0]
         if d['op'] == 'dim' and d['f'] == 'none' and d['a'][3] == 0 and sum(1 for o in h if o['op'] == 'dim') == 1 and (d['a'][1], d['a'][2]) not in seen:
             seen.add((d['a'][1], d['a'][2]))
+            must.append(h)
+        elif d['op'] == 'dim' and d['a'][0] >= 4 and d['a'][2] and len(h) == 2 and h[1]['op'] == 'ravel':     # the directed family "periodic seam" (struct-seam)
             must.append(h)
     order = must + [h for h in order if not any(h is m for m in must)]
     cases = collections.OrderedDict()
